@@ -326,6 +326,26 @@ func c17Exec(cs c17Case) (*fw.Violation, *harness.Server) {
 			shape = "flood-" + cs.Flood
 			break
 		}
+		if cs.Flood == "big-response-peer-stops-reading" {
+			// the peer has opened both windows as far as they go, asks for an 8 MB response (more DATA frames than
+			// any queue holds), stops reading, sends K more frames of its own and goes away: the write fails
+			// with the write queue full and the stream loop still holding hundreds of frames
+			h.SendFrames(peer.Settings(peer.Setting{ID: peer.SInitialWindowSize, Val: 1<<31 - 1}))
+			h.SendFrames(peer.WindowUpdate(0, 1<<31-1-65535))
+			h.SendFrames(peer.Headers(1, reqBlock(1, "GET"), peer.HeadersOpt{EndStream: true, EndHeaders: true, Pad: -1}))
+			h.C.TakeAll()
+			h.C.SetOutCapacity(1)
+			for _, c := range h.Calls {
+				if !c.Returned {
+					h.Finish(c.Idx, harness.Resp{Status: 200, Body: make([]byte, 8<<20)})
+				}
+			}
+			for i := 0; i < cs.K && !h.Returned; i++ {
+				h.SendFrames(peer.Priority(uint32(2*i+3), 0, false, 1))
+			}
+			shape = "flood-" + cs.Flood
+			break
+		}
 		if strings.HasPrefix(cs.Flood, "running-handlers") {
 			// K requests whose handlers are all still running when the peer disappears (reading to the end, or
 			// having stopped reading); they return afterwards, more of them than any hand-back queue holds
@@ -558,7 +578,7 @@ func runC17(c *fw.Ctx) {
 	}
 	c.Bound["grid_frames"] = ng
 	c.Family("grid")
-	for _, fl := range []string{"running-handlers", "running-handlers-peer-not-reading", "ping", "settings", "requests", "error+window-updates", "error+settings", "error+pings", "error+requests", "stream-loop-error+window-updates", "stream-loop-error+settings", "stream-loop-error+pings", "stream-loop-error+requests"} {
+	for _, fl := range []string{"big-response-peer-stops-reading", "running-handlers", "running-handlers-peer-not-reading", "ping", "settings", "requests", "error+window-updates", "error+settings", "error+pings", "error+requests", "stream-loop-error+window-updates", "stream-loop-error+settings", "stream-loop-error+pings", "stream-loop-error+requests"} {
 		for _, k := range []int{1, 10, 127, 128, 129, 140, 300} {
 			for _, late := range []bool{false, true} {
 				do(c17Case{Family: "flood", Flood: fl, K: k, Late: late})
